@@ -10,7 +10,7 @@ import os
 import re
 
 from engine import RuleSet
-from hir import strip
+from hir import strip, pat_variants
 from qq import quote_sites, guard_atoms, has_atom
 from c02 import (val, leaves, show, match_rows, first_match, scrut_ty, lookup, variants_of, callee_of, find_calls, short,
                  alt_str, attr_run, vec_sources, deep_walk, is_quote_root, quote_tokens, gkey)
@@ -1111,3 +1111,35 @@ def r4_13(rep):
                       "`%s(%r)` finds the marker anywhere in the mangled name; names are mangled verbatim (`SSD1306`, `MD1`), so the "
                       "deleting destructor D0 of such a class passes the test and is bound instead of D1" % (c["name"], lits[0]), x.loc(c))
     rep.need(n >= 1, "string tests for the D1 marker in cursor_mangling")
+
+
+@RULES.rule("R4.14", "the pointer a decayed array parameter becomes is `*const` when the element type is const by any spelling", floor=1)
+def r4_14(rep):
+    """`void g(cint a[4])` with `typedef const int cint;` is `void g(const int *a)`.  `Type::is_const` only knows the qualifiers
+    written on that very type; a qualifier that arrives through a typedef sits on the canonical type.  The `to_ptr(..)` of the array arm
+    of the argument conversion has to ask both (before the fix: `fn g(a: *mut cint)`)."""
+    prog = rep.prog
+    n = 0
+    for p, b in sorted(prog.bodies.items()):
+        if not p.startswith("codegen::"):
+            continue
+        for c in b.calls(lambda x: x["k"] == "MCall" and x["name"] == "to_ptr"):
+            arms = [g for pol, kind, g in b.guards(c) if kind == "arm"]
+            if not any(any(v.endswith("TypeKind::Array") for v in pat_variants(g[0]["arms"][g[1]]["pat"])) for g in arms):
+                continue
+            n += 1
+            src = b.canon(c["args"][0], 10)
+            for x in b.walk(c["args"][0]):
+                if x["k"] == "Local" and b.local_init(x["id"]) is not None:
+                    src += " " + b.canon(b.local_init(x["id"]), 10)
+            parts = [x.strip(" ()") for x in src.split(" || ")]
+            elem = "TypeKind::Array.0"
+            direct = any(x.startswith("ir::context::BindgenContext::resolve_type(") and elem in x and x.endswith("Type::is_const") for x in parts)
+            canon = any(x.startswith(("ir::ty::Type::canonical_type(ir::context::BindgenContext::resolve_type(",
+                                      "ir::ty::Type::safe_canonical_type(ir::context::BindgenContext::resolve_type("))
+                        and elem in x and x.endswith("Type::is_const") for x in parts)
+            rep.check(direct and canon, "array-param-constness@%s" % p.split("::")[-1],
+                      "asks the element type and its canonical type" if direct and canon else
+                      "the const-ness of the decayed pointer is read from the element type as spelled only: a typedef of a const type "
+                      "(`typedef const int cint; void g(cint a[4]);`) gives `*mut`", b.loc(c))
+    rep.need(n >= 1, "to_ptr(..) in an array arm of the argument conversion")
